@@ -67,7 +67,7 @@ def _same(a, b):
             d = np.where(np.isfinite(d), d, np.where((x == y) | both_nan, 0.0, np.inf))
         s = max(float(np.nanmax(np.abs(np.where(np.isfinite(y), y, 0.0)))) if y.size else 0.0, 1e-300)
         e = float(np.max(d)) / s if d.size else 0.0
-        if e > 1e-12:
+        if not (e <= 1e-12):
             return k, e
     return None
 
